@@ -43,7 +43,7 @@ fn ref_join(op: &str, a: &Tab, b: &Tab) -> (Vec<Row>, BTreeMap<String, String>) 
   let mut kinds: BTreeMap<String, String> = BTreeMap::new();
   let left_only: Vec<&(String, String)> = a.cols.iter().filter(|(n, _)| !shared.contains(n)).collect();
   let right_only: Vec<&(String, String)> = b.cols.iter().filter(|(n, _)| !shared.contains(n)).collect();
-  let opt = |k: &str| format!("{}?", k);
+  let opt = |k: &str| if k.ends_with('?') { k.to_string() } else { format!("{}?", k) };
   match op {
     "inner" | "left" | "right" | "full" => {
       for (n, k) in a.cols.iter().chain(b.cols.iter()) { kinds.entry(n.clone()).or_insert(k.clone()); }
@@ -105,6 +105,15 @@ impl Prop for C18 {
           out.push(Case { id: format!("join;op={};form={};shared={};n={}", op, form, nshared, i), cell: format!("join;op={};form={};shared={}", op, form, nshared), input: json!({"mode": "join", "a": a, "b": b, "op": op, "src": src}) });
         }
       }
+      // chained joins over one shared key: the second join sees columns that are already optional and hold the empty value
+      if nshared >= 1 && i % 2 == 0 {
+        let mut kinds3 = kinds.clone(); kinds3.insert("c1".into(), rng.pick(&all_kinds).to_string());
+        let cn: Vec<&str> = shared.iter().cloned().chain(std::iter::once("c1")).collect();
+        let c = gen_table(&mut rng, &cn, &kinds3, 4);
+        let outer = ["left", "right", "full", "inner"];
+        let (o1, o2) = (outer[i / 2 % 4], outer[(i / 8 + i / 2) % 4]);
+        for form in ["vars", "inline"] { out.push(Case { id: format!("join2;op1={};op2={};form={};n={}", o1, o2, form, i), cell: format!("join2;op1={};op2={};form={}", o1, o2, form), input: json!({"mode": "join2", "a": a, "b": b, "c": c, "op1": o1, "op2": o2, "form": form}) }); }
+      }
       // row selection on A
       let nr = a.rows.len();
       let idx: Vec<usize> = (0..1 + rng.below(4)).map(|_| 1 + rng.below(nr as u64) as usize).collect();
@@ -151,6 +160,37 @@ impl Prop for C18 {
               return Outcome::violated(class, format!("{}\n-> {}\nexpected rows {:?}", ctx(), v.show(), want.iter().map(|r| r.values().map(|c| c.show()).collect::<Vec<_>>()).collect::<Vec<_>>()));
             }
             if !want.is_empty() { for (n, k) in kinds.iter() { if gkinds.get(n) != Some(k) { return Outcome::violated("column-kind-differs", format!("{}\ncolumn {} has kind {:?} expected {}", ctx(), n, gkinds.get(n), k)); } } }
+            if want.is_empty() { Outcome::trivial() } else { Outcome::held() }
+          }
+        }
+      }
+      "join2" => {
+        let b: Tab = serde_json::from_value(case.input["b"].clone()).unwrap();
+        let c: Tab = serde_json::from_value(case.input["c"].clone()).unwrap();
+        for (n, t) in [("B", &b), ("C", &c)] { let d = s.eval(&format!("{} := {}", n, t.literal())); if !d.is_ok() { return Outcome::inconclusive("table-literal", format!("{} -> {}", t.literal(), d.show())); } }
+        let (op1, op2, form) = (case.input["op1"].as_str().unwrap(), case.input["op2"].as_str().unwrap(), case.input["form"].as_str().unwrap());
+        let sym = |op: &str| OPS.iter().find(|(o, _, _)| *o == op).map(|x| x.1).unwrap_or("?");
+        let (rows1, kinds1) = ref_join(op1, &a, &b);
+        if rows1.is_empty() { return Outcome::trivial().tag("empty-intermediate"); }
+        // the intermediate result as a table of the reference (columns of A, then the columns only B has)
+        let mut cols1: Vec<(String, String)> = Vec::new();
+        for (n, _) in a.cols.iter().chain(b.cols.iter()) { if !cols1.iter().any(|(m, _)| m == n) { cols1.push((n.clone(), kinds1[n].clone())); } }
+        let k = Tab { cols: cols1.clone(), rows: rows1.iter().map(|r| cols1.iter().map(|(n, _)| r[n].clone()).collect()).collect() };
+        let (mut want, kinds) = ref_join(op2, &k, &c);
+        let src = if form == "vars" { format!("K := A {} B\nJ := K {} C", sym(op1), sym(op2)) } else { format!("J := (A {} B) {} C", sym(op1), sym(op2)) };
+        let res = s.eval(&src);
+        let ctx = || format!("A := {}\nB := {}\nC := {}\n{}", a.literal(), b.literal(), c.literal(), src);
+        match &res {
+          Ev::Panic(p) => Outcome::violated("panic-escaped", format!("{}\n{}", ctx(), p)),
+          Ev::ParseErr(m) => Outcome::inconclusive("harness-parse", format!("{} {}", src, m)),
+          Ev::Err(kd, m) => if want.is_empty() { Outcome::trivial().tag("empty-result-rejected") } else { Outcome::violated("error-instead-of-value", format!("{}\nfailed: {} {}", ctx(), kd, m.chars().take(120).collect::<String>())) },
+          Ev::Ok(v) => {
+            let Some((mut got, gkinds)) = table_rows(v) else { return Outcome::violated("not-a-table", format!("{}\n-> {}", ctx(), v.show())); };
+            got.sort(); want.sort();
+            if got != want { return Outcome::violated(if got.len() != want.len() { "row-count-differs" } else { "rows-differ" }, format!("{}\n-> {}\nexpected rows {:?}", ctx(), v.show(), want.iter().map(|r| r.values().map(|c| c.show()).collect::<Vec<_>>()).collect::<Vec<_>>())); }
+            if !want.is_empty() { for (n, kk) in kinds.iter() { if gkinds.get(n) != Some(kk) { return Outcome::violated("column-kind-differs", format!("{}\ncolumn {} has kind {:?} expected {}", ctx(), n, gkinds.get(n), kk)); } } }
+            // every column of the result can be read
+            if !want.is_empty() { for (n, _) in kinds.iter() { match s.eval(&format!("J.{}", n)) { Ev::Ok(_) => {}, other => return Outcome::violated("column-unreadable", format!("{}\nJ.{} -> {}", ctx(), n, other.show())) } } }
             if want.is_empty() { Outcome::trivial() } else { Outcome::held() }
           }
         }
